@@ -344,3 +344,44 @@ func replayFromIndex(v *Verifier, o *Obligation, ri *ReplayInfo) {
 		return
 	}
 }
+
+// runCanaries re-runs the committed scenario replays of a property on the current tree.
+func runCanaries(v *Verifier, prop string, res *propResult) []map[string]interface{} {
+	b, err := os.ReadFile(filepath.Join(verifDir, "replays", "index.json"))
+	if err != nil {
+		return nil
+	}
+	var idx []replayEntry
+	if json.Unmarshal(b, &idx) != nil {
+		return nil
+	}
+	seen := map[string]bool{}
+	var out []map[string]interface{}
+	for _, en := range idx {
+		if !strings.HasPrefix(en.File, prop+"_") || seen[en.File+en.Run] {
+			continue
+		}
+		seen[en.File+en.Run] = true
+		src, err := os.ReadFile(filepath.Join(verifDir, "replays", en.File))
+		if err != nil {
+			continue
+		}
+		o, rerr := runOverlayTest(v.repo, filepath.Join(v.repo, en.Pkg), "zz_vp_replay_test.go", string(src), en.Run)
+		failed := rerr != nil && strings.Contains(o, "VIOLATION")
+		out = append(out, map[string]interface{}{"replay": en.File, "run": en.Run, "violation_reproduced": failed})
+		if failed {
+			dir := filepath.Join(verifDir, "replays", "out")
+			os.MkdirAll(dir, 0o755)
+			path := filepath.Join(dir, sanitize(prop+"_canary_"+en.File+"_"+en.Run)+".json")
+			ri := &ReplayInfo{Property: prop, Obligation: "canary:" + en.File + ":" + en.Run, Reason: "a repaired defect is observable again on the current tree",
+				ReplayTest: "replays/" + en.File + " -run " + en.Run, ReplayOut: trunc(o, 4000), Confirmed: true}
+			jb, _ := json.MarshalIndent(ri, "", " ")
+			os.WriteFile(path, jb, 0o644)
+			res.nViol++
+			res.lines = append(res.lines, fmt.Sprintf("VIOLATION property=%s replay=%s obligation=%s", prop, path, ri.Obligation))
+		} else if rerr != nil && !strings.Contains(o, "ok  ") {
+			res.undecided = append(res.undecided, "canary "+en.File+" "+en.Run+" did not run: "+trunc(o, 300))
+		}
+	}
+	return out
+}
